@@ -33,9 +33,8 @@ Record case_t := {
   o_time : Q; o_events : nat; o_steps : nat; o_ok : bool }.
 
 Definition model_run (c : case_t) : result adworld :=
-  let tb := ad_table (c_cfg c) (c_procs c) (c_nloci c) (c_nodes c) (c_edges c) (c_init c) (c_maxtime c) (c_adraws c) in
-  if c_sync c then sync_run tb 8 (c_fuel c) (c_rands c) (c_draws c)
-  else stoch_run tb 8 (c_fuel c) (c_rands c) (c_lns c) (c_draws c).
+  ad_run (c_cfg c) (c_procs c) (c_nloci c) (c_nodes c) (c_edges c) (c_init c) (c_maxtime c) (c_adraws c)
+         (c_sync c) 8 (c_fuel c) (c_rands c) (c_lns c) (c_draws c).
 
 Definition zset_eqb (a b : list Z) : bool := set_eqb Z.eqb a b && Nat.eqb (length a) (length b).
 
